@@ -541,6 +541,13 @@ impl HashColumn {
 		if tables.ref_count.is_some() {
 			tables.get_ref_count().flush()?;
 		}
+		// Log records planned before a reindex started are still enacted into the old tables.
+		for entry in self.reindex.read().queue.iter() {
+			match entry {
+				ReindexEntry::Index(table) => table.flush()?,
+				ReindexEntry::RefCount(table) => table.flush()?,
+			}
+		}
 		Ok(())
 	}
 
